@@ -9,6 +9,7 @@ import Driver.C16
 import Driver.C17
 import Driver.C04
 import Driver.C18
+import Driver.C20
 
 def main (args : List String) : IO UInt32 := do
   match args with
@@ -23,4 +24,5 @@ def main (args : List String) : IO UInt32 := do
   | "C17" :: rest => DriverC17.main rest; return 0
   | "C04" :: rest => DriverC04.main rest; return 0
   | "C18" :: rest => DriverC18.main rest; return 0
+  | "C20" :: rest => DriverC20.main rest; return 0
   | _ => IO.eprintln "usage: gvdriver <Cxx> [mode] < history"; return 2
